@@ -4,6 +4,7 @@ import (
 	"crypto/sha256"
 	"encoding/hex"
 	"fmt"
+	"hash/fnv"
 	"os"
 	"regexp"
 	"sort"
@@ -85,6 +86,7 @@ type Run struct {
 
 	afterSettle func()
 	Sites       []string // lock-site inventory of the current tree (sorted)
+	SitesPU     []string // explicit unlock points of the current tree (unlock-yield pass)
 	ForceSite   string   // debugging aid: every hold of the run is put at this site
 	Known       string
 	Desc        string
@@ -208,6 +210,13 @@ func (r *Run) DisableHolds() {
 
 // AddHold registers a hold.
 func (r *Run) AddHold(sig string, nth, steps int) *Hold {
+	if r.Sched != nil && r.Sched.UnlockYield && len(r.SitesPU) > 0 {
+		// unlock-yield pass: the scenario's choice of a lock site is mapped onto the explicit unlock points of the
+		// current tree (no further draw from the tape)
+		h := fnv.New32a()
+		h.Write([]byte(sig))
+		sig = r.SitesPU[int(h.Sum32())%len(r.SitesPU)]
+	}
 	if r.ForceSite != "" {
 		sig = r.ForceSite // debugging aid (verif job ... holdsite=<index into the inventory, 1-based>)
 	}
@@ -233,9 +242,9 @@ func (r *Run) classify(ws []*simsync.Waiter) {
 		}
 		w.Tag = "seen"
 		w.Since = int64(r.Stats.SchedSteps)
-		if r.Sched.UnlockYield && !w.PostUnlock {
-			// unlock-yield pass: goroutines are held where they have just released a lock (the main pass holds them
-			// where they ask for one)
+		if r.Sched.UnlockYield && !w.Explicit {
+			// unlock-yield pass: goroutines are held where they have just released a lock in the middle of a function
+			// (the main pass holds them where they ask for one)
 			continue
 		}
 		for _, h := range r.Holds {
